@@ -566,7 +566,7 @@ pub fn model_apply(pre: &Snap, rabs: &[u8], op: &Op) -> Result<Expect, String> {
             match pre.get(&key) {
                 Some((Node::Dir, _)) => {}
                 Some((Node::Link(_), _)) => return Err("path-is-a-symlink".into()),
-                Some((Node::Fifo | Node::Sock | Node::Other, _)) => return Err("special-file".into()),
+                Some((Node::Fifo | Node::Sock | Node::Chr | Node::Blk | Node::Other, _)) => return Err("special-file".into()),
                 _ => return Err("not-a-directory".into()),
             }
             // a symlink final component followed because of the trailing slash is covered above
@@ -628,7 +628,7 @@ pub fn model_apply(pre: &Snap, rabs: &[u8], op: &Op) -> Result<Expect, String> {
             match pre.get(&key) {
                 Some((Node::Dir, _)) => {}
                 None if key.is_empty() => {}
-                Some((Node::Fifo | Node::Sock | Node::Other, _)) => return Err("special-file".into()),
+                Some((Node::Fifo | Node::Sock | Node::Chr | Node::Blk | Node::Other, _)) => return Err("special-file".into()),
                 _ => return Err("not-a-directory".into()),
             }
             self_check(rabs, p, &key)?;
